@@ -2,6 +2,8 @@ import OrsoVerif.Lemmas.Cache
 import OrsoVerif.Lemmas.CacheLru
 import OrsoVerif.Lemmas.CacheSeq
 import OrsoVerif.Lemmas.CacheRefine
+import OrsoVerif.Lemmas.CacheGen
+import OrsoVerif.Lemmas.CacheGenEq
 /-!
 # C19 — Memoised functions return only results computed for the same arguments
 
@@ -27,6 +29,140 @@ theorem lru_program_extracted :
     Gen.Cache.lruLines = lruShape ∧ Gen.Cache.lruExpireOp = ">" ∧ Gen.Cache.singleFreshOp = "<=" ∧
     Gen.Cache.lruPopLast = false ∧ Gen.Cache.lruResultIndex = (1, 1) ∧
     Gen.Cache.lruKeyForm = "tuple(args, frozenset(kwargs.items()))" := by
+  decide
+
+/-- The decorator plumbing in the working tree (extracted facts): both decorators return the wrapper, guard
+`func is None`, forward every configuration parameter to the recursive application, start with no entry (an initial
+value that can equal no call / an empty dict), and create the cache ONCE PER DECORATED FUNCTION - not in a scope that
+a configured decorator `d = lru_cache_with_expiry(max_size=2)` would share between the functions it is applied to. -/
+theorem decorator_glue_extracted :
+    Gen.Cache.singleGlue = ["guard:func is None", "forward:valid_for_seconds", "cache:per-function", "init:no-entry", "return:wrapper"] ∧
+    Gen.Cache.lruGlue = ["guard:func is None", "forward:max_size", "forward:valid_for_seconds", "cache:per-function", "init:no-entry", "return:wrapper"] := by
+  decide
+
+/-! ## The wrapper bodies as GENERATED from the working tree (`Gen.CacheFns`, harness/extractors/c19_fns.py)
+
+"Equal arguments" is Python `==`: a `BEq` instance on the argument types about which nothing is assumed for the
+single-item cache, and only reflexivity (Python: the identity shortcut of dict lookups) for the LRU cache.
+`sameArgs stored call` = the identical arguments, or `stored == call` on the positional and the keyword part. -/
+
+/-- Clause "returns a value that the wrapped function produced for equal positional and keyword arguments no longer
+ago than the validity period", single-item cache, for the GENERATED wrapper and ANY `==`: in every history of calls and
+clock advances every call returns the index of an invocation of the wrapped function whose arguments are the call's own
+or `==` to them (stored value on the left, as Python evaluates it), made at most `valid_for_seconds` before the call. -/
+theorem generated_single_returns_for_equal_arguments {α β : Type} [BEq α] [BEq β] (cost : α × β → Int)
+    (valid : Option Int) (hv : ∀ v, valid = some v → 0 ≤ v) (t0 : Int) (ops : List (Op (α × β))) :
+    ∀ e ∈ (gSingleRun cost valid Gen.CacheFns.single_init { now := t0, log := [] } ops).2,
+      ∃ i stored tm, e.ret = some i ∧
+        (gSingleRun cost valid Gen.CacheFns.single_init { now := t0, log := [] } ops).1.2.log[i]? = some (stored, tm) ∧
+        sameArgs stored e.key ∧ leInf (e.now - tm) valid = true :=
+  (gSingleRun_ok cost valid hv ops _ _ (GSInv_init _)).2
+
+/-- The same clause for the GENERATED LRU wrapper (any `max_size`), for any reflexive `==` and any `hash`: the
+dictionary lookup compares hashes and then `stored_key == key`; whatever the hash function does, a returned value was
+produced for arguments `==` to the call's. -/
+theorem generated_lru_returns_for_equal_arguments {α β : Type} [BEq α] [BEq β] [Hashable α] [Hashable β]
+    [ReflBEq α] [ReflBEq β] (cost : α × β → Int) (maxSize : Nat) (valid : Option Int)
+    (hv : ∀ v, valid = some v → 0 ≤ v) (t0 : Int) (ops : List (Op (α × β))) :
+    ∀ e ∈ (gLruRun cost maxSize valid Gen.CacheFns.lru_init { now := t0, log := [] } ops).2,
+      ∃ i stored tm, e.ret = some i ∧
+        (gLruRun cost maxSize valid Gen.CacheFns.lru_init { now := t0, log := [] } ops).1.2.log[i]? = some (stored, tm) ∧
+        sameArgs stored e.key ∧ leInf (e.now - tm) valid = true :=
+  (gLruRun_ok cost maxSize valid hv ops _ _ (by intro e he; cases he)).2
+
+/-- The generated single-item wrapper IS the hand-written statement-level machine: for lawful equality, every history
+run through `Gen.CacheFns.single_wrapper` from `Gen.CacheFns.single_init` gives the events, the final entry and the
+invocation log of `singleRun` - so `single_refines_spec` and `single_invokes_exactly_on_miss` below are theorems about
+the wrapper body as it is in the working tree. -/
+theorem generated_single_eq_model {α β : Type} [DecidableEq α] [DecidableEq β] (cost : α × β → Int) (valid : Option Int)
+    (t0 : Int) (ops : List (Op (α × β))) :
+    gSingleRun cost valid Gen.CacheFns.single_init { now := t0, log := [] } ops =
+      ((encS (singleRun valid cost (SState.init t0) ops).1.entry,
+        { now := (singleRun valid cost (SState.init t0) ops).1.now, log := (singleRun valid cost (SState.init t0) ops).1.log }),
+       (singleRun valid cost (SState.init t0) ops).2.map gev) :=
+  gSingleRun_eq cost valid ops (SState.init t0)
+
+/-- The generated LRU wrapper IS the hand-written statement-level machine `lruRun` (for lawful equality and ANY hash
+function): expiry sweep, membership test, `move_to_end`, insertion, `popitem(last=False)` above `max_size`. With
+`lru_refines_spec` the generated wrapper refines the declarative specification. -/
+theorem generated_lru_eq_model {α β : Type} [DecidableEq α] [DecidableEq β] [Hashable α] [Hashable β]
+    (cost : α × β → Int) (maxSize : Nat) (valid : Option Int) (t0 : Int) (ops : List (Op (α × β))) :
+    gLruRun cost maxSize valid Gen.CacheFns.lru_init { now := t0, log := [] } ops =
+      ((encL (lruRun maxSize valid cost (LState.init t0) ops).1.cache,
+        { now := (lruRun maxSize valid cost (LState.init t0) ops).1.now, log := (lruRun maxSize valid cost (LState.init t0) ops).1.log }),
+       (lruRun maxSize valid cost (LState.init t0) ops).2.map gev) :=
+  gLruRun_eq cost maxSize valid ops (LState.init t0)
+
+/-- Non-vacuity with a NON-lawful `==`: arguments compared modulo 10 (`3 == 13`), single-item cache, validity 5:
+f(3) computes, f(13) is served f(3)'s value (a value for `==` arguments), f(4) computes, after 6 s f(4) recomputes. -/
+example : (@gSingleRun Nat Nat ⟨fun a b => a % 10 == b % 10⟩ ⟨fun a b => a == b⟩ (fun _ => 0) (some 5)
+    Gen.CacheFns.single_init { now := 0, log := [] }
+    [.call (3, 0), .call (13, 0), .call (4, 0), .advance 6, .call (4, 0)]).2.map (·.ret) = [some 0, some 0, some 1, some 2] := by
+  decide
+
+/-- Clause "which in particular keeps one DataFrame's cached column names from being served to another":
+`DataFrame.column_names` / `columncount` are the bare `@single_item_cache` (no expiry) on a method of `self` only, and
+`DataFrame` defines no `__eq__`, so the key is the frame compared by identity (`F` with lawful equality, no keyword
+arguments).  For every history of reads on any frames, what a read returns was computed by the wrapped method for a
+frame with the same identity - whatever `names` the method computes from a frame, the caller gets its own frame's. -/
+theorem frame_is_served_its_own_names {F N : Type} [DecidableEq F] (names : F → N) (cost : F × Unit → Int) (t0 : Int)
+    (ops : List (Op (F × Unit))) :
+    ∀ e ∈ (gSingleRun cost none Gen.CacheFns.single_init { now := t0, log := [] } ops).2,
+      ∃ i stored tm, e.ret = some i ∧
+        (gSingleRun cost none Gen.CacheFns.single_init { now := t0, log := [] } ops).1.2.log[i]? = some (stored, tm) ∧
+        names stored.1 = names e.key.1 := by
+  intro e he
+  obtain ⟨i, stored, tm, h1, h2, h3, _⟩ :=
+    generated_single_returns_for_equal_arguments cost none (by intro v hv; cases hv) t0 ops e he
+  refine ⟨i, stored, tm, h1, h2, ?_⟩
+  rcases h3 with h | ⟨h, _⟩
+  · rw [h]
+  · rw [eq_of_beq h]
+
+/-! ## Several wrappers made by one decorator (the plumbing around the wrapper) -/
+
+/-- Each wrapper has its own entries: with the cache scope EXTRACTED from `lru_cache_with_expiry`, in any history of
+calls on any number of wrappers (wrapper `j` wraps function `j`) and clock advances, the events of wrapper `j` are
+exactly the events of the sequential machine `lruRun` on `j`'s own calls - the other wrappers' calls appear only as the
+clock advances they caused - and function `j`'s invocation log is that run's log. -/
+theorem lru_wrappers_independent {K : Type} [DecidableEq K] (maxSize : Nat) (valid : Option Int) (cost : K → Int)
+    (t0 : Int) (j : Nat) (ops : List (AOp K)) :
+    let M := lruMach maxSize valid cost
+    let sh := scopeShared Gen.Cache.lruGlue
+    let solo := lruRun maxSize valid cost (LState.init t0) (projOps M sh j (MState.init M t0) ops)
+    ((multiRun M sh (MState.init M t0) ops).2.filter (fun p => p.1 = j)).map (·.2) = solo.2 ∧
+    (multiRun M sh (MState.init M t0) ops).1.logs j = solo.1.log := by
+  have hsh : scopeShared Gen.Cache.lruGlue = false := by decide
+  simp only [hsh]
+  have h := multiRun_independent (lruMach maxSize valid cost) j ops (MState.init (lruMach maxSize valid cost) t0)
+  have hm := machRun_lru maxSize valid cost (projOps (lruMach maxSize valid cost) false j (MState.init (lruMach maxSize valid cost) t0) ops) (LState.init t0)
+  simp only [MState.init, LState.init, lruMach] at h hm ⊢
+  rw [hm] at h
+  exact ⟨h.1, (Prod.mk.inj h.2).2⟩
+
+/-- The same for `single_item_cache`. -/
+theorem single_wrappers_independent {K : Type} [DecidableEq K] (valid : Option Int) (cost : K → Int)
+    (t0 : Int) (j : Nat) (ops : List (AOp K)) :
+    let M := singleMach valid cost
+    let sh := scopeShared Gen.Cache.singleGlue
+    let solo := singleRun valid cost (SState.init t0) (projOps M sh j (MState.init M t0) ops)
+    ((multiRun M sh (MState.init M t0) ops).2.filter (fun p => p.1 = j)).map (·.2) = solo.2 ∧
+    (multiRun M sh (MState.init M t0) ops).1.logs j = solo.1.log := by
+  have hsh : scopeShared Gen.Cache.singleGlue = false := by decide
+  simp only [hsh]
+  have h := multiRun_independent (singleMach valid cost) j ops (MState.init (singleMach valid cost) t0)
+  have hm := machRun_single valid cost (projOps (singleMach valid cost) false j (MState.init (singleMach valid cost) t0) ops) (SState.init t0)
+  simp only [MState.init, SState.init, singleMach] at h hm ⊢
+  rw [hm] at h
+  exact ⟨h.1, (Prod.mk.inj h.2).2⟩
+
+/-- Why the scope matters: with ONE cache for everything a configured decorator is applied to
+(`cache:outer-scope`), `f0(7)` followed by `f1(7)` serves `f0`'s value to the caller of `f1` - the call of wrapper 1
+does not invoke function 1 (whose log stays empty) and returns invocation 0 of function 0. -/
+theorem shared_scope_serves_foreign :
+    let r := multiRun (lruMach 2 none (fun (_ : Nat) => 0)) (scopeShared ["cache:outer-scope"])
+      (MState.init (lruMach 2 none (fun (_ : Nat) => 0)) 0) [.call 0 7, .call 1 7]
+    r.2.map (fun p => (p.1, p.2.ret, p.2.invoked)) = [(0, 0, true), (1, 0, false)] ∧ r.1.logs 1 = [] ∧ r.1.logs 0 = [(7, 0)] := by
   decide
 
 /-! ## Every sequence of calls and clock advances: single-item cache
@@ -124,6 +260,17 @@ theorem lru_keys_unique_size_bounded {K : Type} [DecidableEq K] (maxSize : Nat) 
   have h := lruRun_eq_specRun maxSize valid cost ops (LState.init t0)
     ⟨by intro e he; simp [LState.init] at he, by simp [LState.init]⟩
   rw [h.1]; exact h.2
+
+/-- Why the specification is a machine and not the classical closed formula "held = the `max_size` most recently
+used keys of the history": with expiry the formula is FALSE of the code.  `max_size` 2, validity 10: `1`@0, `0`@8,
+`1`@9 (hit), `2`@11 (the sweep deletes `1`, computed at 0, so nothing is evicted), `0`@12 is a HIT although the two
+most recently used keys before it are `2` and `1`. -/
+theorem lru_held_is_not_the_mru_closed_formula :
+    ((lruRun 2 (some 10) (fun _ => 0) (LState.init 0)
+        [.call 1, .advance 8, .call 0, .advance 1, .call 1, .advance 2, .call 2, .advance 1, .call 0]).2.map
+      (fun e => (e.key, e.invoked)) = [(1, true), (0, true), (1, false), (2, true), (0, false)]) ∧
+    ([2, 1, 0, 1].eraseDups.take 2 = [2, 1]) := by
+  decide
 
 /-- What a hit means in the specification: the function is not invoked iff an unexpired entry
 for an equal key is stored (boundary `<=`). -/
